@@ -113,7 +113,8 @@ def k1b_high_bit_patterns(src, length):
     want = java_murmur2_int32(key) & 0xFFFFFFFF
     if src.twin:
         want ^= 1
-    src.check(isinstance(got, int) and got == want, f"murmur2 differs from Java Utils.murmur2 for key {key.hex()}", key=key.hex())
+    src.check(isinstance(got, int) and got == want,
+              f"murmur2 differs from Java Utils.murmur2 for a key of length {length} with high-bit bytes", key=key.hex())
 
 
 class _Poison:
